@@ -34,12 +34,11 @@ CONSTANTS
     Sizes               \* rule counts at which the matcher selection is tabulated
 
 VARIABLES
-    b,          \* the Builder: [d, dnil, t, k, r]
-                \*   d    : set of strings         DomainMapMatcher (map[string]struct{})
-                \*   dnil : BOOLEAN                the map is nil (after gob decoding of an empty map)
-                \*   t    : trie node              DomainSuffixTrie (see below)
-                \*   k    : Seq(STRING)            KeywordLinearMatcher
-                \*   r    : Seq(STRING)            RegexpMatcherBuilder
+    b,          \* the Builder: [d, t, k, r]
+                \*   d : set of strings         DomainMapMatcher (map[string]struct{})
+                \*   t : trie node              DomainSuffixTrie (see below)
+                \*   k : Seq(STRING)            KeywordLinearMatcher
+                \*   r : Seq(STRING)            RegexpMatcherBuilder
     ref,        \* ghost: [d, s, k, r] the rule sets the builder is supposed to mean
     nclear,     \* number of Clear calls so far
     act         \* last action and what the model expects to observe (output only)
@@ -170,7 +169,7 @@ Minimal(S) == {s \in S : ~ \E u \in S : u # s /\ RefSuffix1(s, u)}
 
 -----------------------------------------------------------------------------
 (* The builder and DomainSet.Match *)
-EmptyBuilder == [d |-> {}, dnil |-> FALSE, t |-> EmptyTrie, k |-> <<>>, r |-> <<>>]
+EmptyBuilder == [d |-> {}, t |-> EmptyTrie, k |-> <<>>, r |-> <<>>]
 EmptyRef == [d |-> {}, s |-> {}, k |-> {}, r |-> {}]
 
 \* DomainSet.Match over the matchers the loader's builder appends (any of them matching suffices;
@@ -253,7 +252,7 @@ FromText(text) ==
                    IF l2[1] = "" THEN bad                       \* errEmptySet
                    ELSE ParseLines(l2[1], l2[2], acc0)
        ELSE ParseLines(l1[1], l1[2], acc0)
-BuilderOf(acc) == [d |-> acc.d, dnil |-> FALSE, t |-> TrieFromSeq(EmptyTrie, acc.s), k |-> acc.k, r |-> acc.r]
+BuilderOf(acc) == [d |-> acc.d, t |-> TrieFromSeq(EmptyTrie, acc.s), k |-> acc.k, r |-> acc.r]
 RefOf(acc) == [d |-> acc.d, s |-> Range(acc.s), k |-> Range(acc.k), r |-> Range(acc.r)]
 
 \* What a text document means, read declaratively: split at LF, drop one trailing CR of every line that
@@ -290,10 +289,14 @@ WriteText(bb, rev) ==
     IN HintPrefix \o ToString(nd) \o " " \o ToString(ns) \o " " \o ToString(nk) \o " " \o ToString(nr) \o " " \o HintSuffix \o LF
        \o Cat("domain:", ord(bb.d)) \o Cat("suffix:", ord(TrieKeys(bb.t))) \o Cat("keyword:", bb.k) \o Cat("regexp:", bb.r)
 
-\* gob: BuilderGobFromBuilder, Encode, Decode, BuilderGob.Builder.  gob does not transmit empty maps and
-\* slices, so an empty map comes back as a nil map (reads still work, Insert would panic).
-GobRoundTripOf(bb) ==
-    [bb EXCEPT !.dnil = (bb.d = {}), !.t = IF bb.t.ch = <<>> THEN Leaf ELSE bb.t]
+\* gob: BuilderGobFromBuilder, Encode, Decode, BuilderGob.Builder.  encoding/gob omits nil maps only: an
+\* empty non-nil map (a builder without domain rules, the root of an empty trie) is transmitted and comes
+\* back as an empty non-nil map, so the decoded builder has the same shape.  (The replay driver reports the
+\* nil-ness it observes after every step; a first version of this model that turned empty maps into nil
+\* maps was corrected by those reports.)  The builder members are already the gob types (DomainMapMatcher,
+\* DomainSuffixTrie, KeywordLinearMatcher, RegexpMatcherBuilder); other builder kinds are converted by
+\* *FromSeq(Rules()), which is the re-insertion TrieRebuilds is about.
+GobRoundTripOf(bb) == bb
 
 -----------------------------------------------------------------------------
 Init ==
@@ -304,13 +307,13 @@ Room(rf, kind, x) == x \in rf[kind] \/ NRules(rf) < MaxRules
 
 \* MatcherBuilder.Insert on the builder's four members
 InsertDomain(x) ==
-    /\ ~b.dnil /\ Room(ref, "d", x)
+    /\ Room(ref, "d", x)
     /\ b' = [b EXCEPT !.d = @ \cup {x}]
     /\ ref' = [ref EXCEPT !.d = @ \cup {x}]
     /\ UNCHANGED nclear
     /\ act' = [n |-> "Insert", kind |-> "domain", rule |-> x]
 InsertSuffix(x) ==
-    /\ ~b.t.nil /\ Room(ref, "s", x)
+    /\ Room(ref, "s", x)
     /\ b' = [b EXCEPT !.t = TrieInsert(@, x)]
     /\ ref' = [ref EXCEPT !.s = @ \cup {x}]
     /\ UNCHANGED nclear
@@ -332,7 +335,7 @@ InsertRegexp(x) ==
 Clear(kind) ==
     /\ nclear < MaxClear /\ nclear' = nclear + 1
     /\ CASE kind = "domain" -> b' = [b EXCEPT !.d = {}] /\ ref' = [ref EXCEPT !.d = {}]
-         [] kind = "suffix" -> b' = [b EXCEPT !.t = IF @.nil THEN @ ELSE EmptyTrie] /\ ref' = [ref EXCEPT !.s = {}]
+         [] kind = "suffix" -> b' = [b EXCEPT !.t = EmptyTrie] /\ ref' = [ref EXCEPT !.s = {}]
          [] kind = "keyword" -> b' = [b EXCEPT !.k = <<>>] /\ ref' = [ref EXCEPT !.k = {}]
          [] kind = "regexp" -> b' = [b EXCEPT !.r = <<>>] /\ ref' = [ref EXCEPT !.r = {}]
     /\ act' = [n |-> "Clear", kind |-> kind]
@@ -378,9 +381,8 @@ Spec == Init /\ [][Next]_vars
 
 -----------------------------------------------------------------------------
 TypeOK ==
-    /\ b.dnil \in BOOLEAN /\ b.t.nil \in BOOLEAN
-    /\ b.dnil => b.d = {}
-    /\ b.t.nil => b.t.ch = <<>>
+    /\ ~b.t.nil                                 \* the root always has a (possibly empty) map: Insert never panics
+    /\ DOMAIN b = {"d", "t", "k", "r"}
     /\ nclear \in 0..MaxClear
 
 \* C10, domain part: the builder answers every probe as the rules it was given mean.
@@ -399,13 +401,13 @@ SuffixMatchersAgree ==
 \* suffixes not covered by a shorter one.
 TrieCanonical ==
     /\ TrieKeys(b.t) = Minimal(ref.s)
-    /\ ~b.t.nil => KeyCount(b.t) = Cardinality(TrieKeys(b.t))
+    /\ KeyCount(b.t) = Cardinality(TrieKeys(b.t))
 
 \* Rules() fed back through Insert (what both WriteText->BuilderFromText and
 \* DomainSuffixTrieFromSeq do) rebuilds the same trie, in either order.
 TrieRebuilds ==
-    ~b.t.nil => /\ TrieFromSeq(EmptyTrie, SetToSeq(TrieKeys(b.t))) = b.t
-                /\ TrieFromSeq(EmptyTrie, Reverse(SetToSeq(TrieKeys(b.t)))) = b.t
+    /\ TrieFromSeq(EmptyTrie, SetToSeq(TrieKeys(b.t))) = b.t
+    /\ TrieFromSeq(EmptyTrie, Reverse(SetToSeq(TrieKeys(b.t)))) = b.t
 
 \* The parser reads a document as the declarative reading does.
 ParserIsMeaning ==
